@@ -33,6 +33,16 @@ CLAIMED = {
    text="Generated-input search per quick run: 1500 hygiene scenarios from 11 families (template binders vs user variables in swap! / or / lambda / named-let templates, use-site bindings via let, lambda parameter or internal define of the template's free identifiers - program globals and builtins, directly or inside a form handed to when / or / let* / a user macro -, special forms, a macro using a macro with the same spelling, a macro-defining macro, recursive and let*-style macros, a macro imported from a module whose private helper is redefined by the requiring program) x 6 binder names, each run with clashing and with alpha-renamed names, as REPL text and as a module, JIT on/off; 6000 generated syntax-rules definitions (1-3 clauses, literals, nested ellipses, items after an ellipsis, dotted tails) with 2-5 generated uses each, compared with a reference matcher; a use no clause matches must raise. No proof: scenario families and pattern grammar are finite.",
    note="Trusted: alpha-renaming of use-site variables to names that occur nowhere else preserves meaning (the hygiene oracle needs no model of the expander); the reference matcher (svmodel::macros) for clause selection and bindings. Four hygiene defects are listed as known findings and matched by signature.",
    design="DESIGN.md section 4, C13"),
+ "C14": dict(
+   technique="stateful property-based testing against a substitution model: generated acyclic module graphs with overlapping names and require modifiers, and histories of evaluations on one engine (requires, rejection probes, clashing definitions, contract violations, typos, re-requires)",
+   text="Generated-input search: 3000 (quick) graphs of 2-5 in-memory modules x histories of 3-14 evaluations; every definition evaluates to (list 'module 'name refs...), so values reveal which binding each reference resolved to; expected values are computed by substitution; private names and provided-but-unselected names must be rejected; an instantiation marker printed by every module body must appear exactly once over the whole history for every transitively required module and never otherwise; contract/out provides must reject a violating argument at the boundary and accept it inside the module. JIT on and off.",
+   note="Trusted: the worker's in-memory module registration (Step::Module) stands for module files; the substitution model. for-syntax provides and cyclic graphs are not generated.",
+   design="DESIGN.md section 4, C14"),
+ "C17": dict(
+   technique="property-based testing with fault injection at a generated point: non-terminating program shapes x interrupt request at a generated script step (deterministic step hook, timer fallback) x JIT on/off; invariant oracle (stops with the interrupt error within a bounded number of steps, engine usable afterwards)",
+   text="Generated-input search: 400 (quick) (shape, size, request point) triples over 19 non-terminating shapes (tail loops, recursion in loops, map/foldl/for-each/transduce callbacks, handler loops that swallow errors, retry loops, generators via continuations, wind thunks, closure / allocation / port heavy loops), request point 1..3*10^6 script steps; the evaluation must end with the interrupt error at most 50000 script steps after the request (measured by the step hook) and the engine must then evaluate a probe program correctly; an evaluation still running 10 s (22 s on the retry) after the request is reported as not interruptible.",
+   note="Trusted: hooks STEPS / arm_interrupt (steel-core feature verif): the request is made through ThreadStateController::interrupt exactly when the step counter reaches the generated value; a 1.5 s timer makes it for code that does not pass the counted dispatch point. This is the one check where a watchdog timeout is a violation, because not stopping is what the property forbids; it is retried once with a doubled budget first.",
+   design="DESIGN.md section 4, C17"),
  "C02": dict(
    technique="differential property-based testing: generated programs and evaluation histories run under 7 (quick) / 24 (thorough) combinations of the optimisation switches (JIT, inlining, recursive inlining, closure lifting, module inlining), all compared with each other and with the reference interpreter",
    text="Generated-input search: each generated program / history (same generators as C01 and C06) is executed in forked workers under every selected combination of STEEL_JIT, STEEL_INLINE, STEEL_INLINE_RECURSIVE, STEEL_CLOSURE_LIFTING and STEEL_MODULE_INLINE, as top-level text and as a module; values, output and outcome must be identical across configurations (and equal to the reference interpreter). A failure is classed jitdiv (only the JIT differs) or cfgdiv. Bounded by the generators; no proof.",
